@@ -196,17 +196,21 @@ impl ProtocolStage for CanonicalId {
         repo: &Repository,
         refs: &'a [ReceivedRef],
     ) -> Result<Updates<'a>, error::Prepare> {
-        // SAFETY: checked by `pre_validate` that the `refs/rad/id`
-        // was received
-        let verified = repo
-            .identity_doc_at(
-                *s.canonical_rad_id()
-                    .expect("ensure we got canonicdal 'rad/id' ref"),
-            )
-            .map_err(|err| error::Prepare::Verification {
+        // N.b. `pre_validate` checks that a `refs/rad/id` was received, but
+        // that doesn't guarantee that the canonical one was recorded: what
+        // the remote advertises is not under our control.
+        let canonical = s
+            .canonical_rad_id()
+            .ok_or_else(|| error::Prepare::Verification {
                 remote: self.remote,
-                err: Box::new(err),
+                err: "the canonical 'rad/id' reference was not received".into(),
             })?;
+        let verified =
+            repo.identity_doc_at(*canonical)
+                .map_err(|err| error::Prepare::Verification {
+                    remote: self.remote,
+                    err: Box::new(err),
+                })?;
         if verified.is_delegate(&self.remote.into()) {
             let is_delegate = |remote: &PublicKey| verified.is_delegate(&remote.into());
             Ok(Updates::build(
